@@ -214,7 +214,12 @@ def parse_with_formats(date_string, date_formats, settings):
                 today = datetime.today()
                 date_obj = date_obj.replace(year=today.year)
 
-            date_obj = apply_timezone_from_settings(date_obj, settings)
+            try:
+                date_obj = apply_timezone_from_settings(date_obj, settings)
+            except OverflowError:
+                # the date is at the very end of the supported range and does
+                # not survive the time-zone conversion
+                continue
 
             return DateData(date_obj=date_obj, period=period)
     else:
